@@ -94,12 +94,16 @@ def registry_agreement(repo: Repo) -> RuleRun:
         if fn.node.args.defaults or fn.node.args.kwonlyargs or fn.node.args.vararg:
             problems.append("defaults / keyword-only / *args parameters")
         r.check(not problems, fn, f"{out} <- ({p1}, {p2})", f"{fn.name}: " + "; ".join(problems), fn.node, key="signature")
-    # the caller's argument order
+    # the caller's argument order, observed on the abstract run of Chop.calculate: each relation is
+    # called with (length, value of input_1, value of input_2)
+    res, used, this, call_log = run_calculate(repo, {"count": Sym("given:count"), "start_size": Sym("given:start_size")}, want_log=True)
     calc = repo.func("grading.chop.Chop.calculate")
-    calls = [c for c in ast.walk(calc.node) if isinstance(c, ast.Call) and isinstance(c.func, ast.Name) and c.func.id == "function"]
-    r.require(len(calls) == 1 and len(calls[0].args) == 3, "Chop.calculate: 'function(length, data[...], data[...])' not found")
-    a = [ast.unparse(x) for x in calls[0].args]
-    r.check(a == ["length", "data[chop_rel.input_1]", "data[chop_rel.input_2]"], calc, "relation called with (length, data[input_1], data[input_2])", f"Chop.calculate calls the relation with {a}", calls[0], key="call-order")
+    r.require(len(call_log) >= 1, "Chop.calculate: no relation calls observed on the abstract run")
+    bad_calls = []
+    for name, args, expected in call_log:
+        if [repr(a) for a in args] != expected:
+            bad_calls.append(f"{name} called with {[repr(a) for a in args]}, expected {expected}")
+    r.check(not bad_calls, calc, f"{len(call_log)} relation calls with (length, input_1, input_2)", "Chop.calculate: " + "; ".join(bad_calls[:3]), calc.node, key="call-order")
     # the registry filter picks exactly these functions
     gcf = repo.func("grading.relations.get_calculation_functions")
     src = ast.unparse(gcf.node)
@@ -111,7 +115,7 @@ registry_agreement.rule_id = "C03.REGISTRY-AGREEMENT"
 
 
 # --------------------------------------------------------------------------------------------
-def run_calculate(repo: Repo, given: Dict[str, Any]):
+def run_calculate(repo: Repo, given: Dict[str, Any], want_log: bool = False):
     calc = repo.func("grading.chop.Chop.calculate")
     chop_cls = repo.cls("grading.chop.Chop")
     fields = [k for k in chop_cls.class_annotations]
@@ -123,6 +127,7 @@ def run_calculate(repo: Repo, given: Dict[str, Any]):
     for k, v in given.items():
         this.set(k, v)
     rels = []
+    io = {}
     for fn in relation_functions(repo):
         out, p1, p2 = split_name(repo, fn.name)
         o = Obj(fn.name)
@@ -132,33 +137,53 @@ def run_calculate(repo: Repo, given: Dict[str, Any]):
         o.set("inputs", {p1, p2})
         o.set("function", Sym(f"fn:{fn.name}"))
         rels.append(o)
+        io[fn.name] = (out, p1, p2)
     used = []
+    call_log = []
+    values: Dict[str, Any] = {k: v for k, v in given.items()}
+
+    def callee_name(ev, call):
+        if isinstance(call.func, ast.Name) and isinstance(ev.env.get(call.func.id), Sym) and repr(ev.env[call.func.id]).startswith("fn:"):
+            return repr(ev.env[call.func.id])[3:]
+        if isinstance(call.func, ast.Attribute):
+            try:
+                v = ev.eval(call.func)
+            except NotEvaluable:
+                return None
+            if isinstance(v, Sym) and repr(v).startswith("fn:"):
+                return repr(v)[3:]
+        return None
 
     def hook(ev, call: ast.Call, nm):
         if nm in ("dataclasses.asdict", "asdict"):
             return {f: this.get(f) for f in fields}
         if nm == "ChopRelation.get_possible_combinations":
             return list(rels)
-        if isinstance(call.func, ast.Name) and isinstance(ev.env.get(call.func.id), Sym) and repr(ev.env[call.func.id]).startswith("fn:"):
+        name = callee_name(ev, call)
+        if name is not None:
             args = [ev.eval(a) for a in call.args]
             if any(a is None for a in args):
                 raise Raised("TypeError")
-            used.append(repr(ev.env[call.func.id])[3:])
-            return Sym(f"value-of:{repr(ev.env[call.func.id])[3:]}")
+            out, p1, p2 = io[name]
+            call_log.append((name, args, ["length", repr(values.get(p1)), repr(values.get(p2))]))
+            used.append(name)
+            values[out] = Sym(f"value-of:{name}")
+            return values[out]
         if nm == "int" and call.args:
             v = ev.eval(call.args[0])
             return v
         return NO_MATCH
 
     ev = Evaluator(repo=repo, module=calc.module, call_hook=hook)
-    passes = {"n": 0}
     try:
         res = ev.call_funcinfo(calc, [this, Sym("length")])
-        return res, used, this
     except Raised as err:
-        return ("raised", err.exc_name), used, this
+        res = ("raised", err.exc_name)
     except NotEvaluable as err:
         raise AnalysisError(f"Chop.calculate not evaluable: {err}") from err
+    if want_log:
+        return res, used, this, call_log
+    return res, used, this
 
 
 def closure(repo: Repo) -> RuleRun:
@@ -286,14 +311,20 @@ invert_complete.rule_id = "C03.INVERT-COMPLETE"
 # --------------------------------------------------------------------------------------------
 def validation_siblings(repo: Repo) -> RuleRun:
     r = RuleRun(PROP, "C03.VALIDATION-SIBLINGS", floor=12, what="every relation validates length first; relations taking count validate it")
+    from ..cfg import CFG
+    from ..util import node_calls
+
     for fn in relation_functions(repo):
-        body = [s for s in fn.node.body if not (isinstance(s, ast.Expr) and isinstance(s.value, ast.Constant))]
-        first = body[0] if body else None
-        ok = isinstance(first, ast.Expr) and isinstance(first.value, ast.Call) and attr_chain(first.value.func) == "_validate_length" and ast.unparse(first.value.args[0]) == "length"
-        r.check(ok, fn, "_validate_length(length) first", f"{fn.name} does not start by validating the length (its 11 siblings do): a zero or negative edge length yields a wrong or non-finite grading instead of an error", fn.node, key="length")
+        g = CFG(fn.node)
+
+        def validates(n, what, arg):
+            return any(attr_chain(c.func) == what and c.args and ast.unparse(c.args[0]) == arg for c in node_calls(n))
+
+        ok, path = g.must_pass(g.entry, g.exit_return, lambda n: validates(n, "_validate_length", "length"))
+        r.check(ok, fn, "_validate_length(length) on every path to a result", f"{fn.name} can return a result without validating the length (its siblings do): a zero or negative edge length yields a wrong or non-finite grading instead of an error", fn.node, key="length")
         if "count" in fn.params:
-            okc = any(isinstance(c, ast.Call) and attr_chain(c.func) == "_validate_count" and c.args and ast.unparse(c.args[0]) == "count" for c in ast.walk(fn.node))
-            r.check(okc, fn, "_validate_count(count, ...)", f"{fn.name} takes a count but does not validate it (its siblings do)", fn.node, key="count")
+            okc, _p = g.must_pass(g.entry, g.exit_return, lambda n: validates(n, "_validate_count", "count"))
+            r.check(okc, fn, "_validate_count(count, ...) on every path to a result", f"{fn.name} takes a count but can return without validating it (its siblings do)", fn.node, key="count")
     vl = repo.func("grading.relations._validate_length")
     ok = any(isinstance(n, ast.If) and isinstance(n.test, ast.Compare) and ast.unparse(n.test).replace(" ", "") in ("length<=0", "0>=length", "notlength>0") and any(isinstance(b, ast.Raise) for b in n.body) for n in ast.walk(vl.node))
     r.check(ok, vl, "length <= 0 rejected", "_validate_length no longer rejects length <= 0", vl.node, key="_validate_length")
@@ -464,7 +495,8 @@ def dimensions(repo: Repo) -> RuleRun:
     for fn in relation_functions(repo):
         out, p1, p2 = split_name(repo, fn.name)
         if not all(q in DIM for q in (out, p1, p2)) or len(fn.params) != 3:
-            continue  # reported by REGISTRY-AGREEMENT
+            r.ok(fn, "not typed here: name/signature problem reported by C03.REGISTRY-AGREEMENT", key="body")
+            continue
         env = {fn.params[0]: DIM["length"], fn.params[1]: DIM[p1], fn.params[2]: DIM[p2]}
         chk = DimChecker(fn.node, env)
         try:
@@ -499,10 +531,17 @@ def bracket_siblings(repo: Repo) -> RuleRun:
     b = repo.func("grading.relations.get_c2c_expansion__count__end_size")
 
     def brackets(fn: FuncInfo):
+        """{'c_min': {expr texts}, 'c_max': {...}} for the two names handed to brentq as the bracket."""
+        calls = [c for c in ast.walk(fn.node) if isinstance(c, ast.Call) and (attr_chain(c.func) or "").endswith("brentq") and len(c.args) >= 3]
         out = {}
-        for n in ast.walk(fn.node):
-            if isinstance(n, ast.Assign) and isinstance(n.targets[0], ast.Name) and n.targets[0].id in ("c_min", "c_max"):
-                out.setdefault(n.targets[0].id, set()).add(ast.unparse(n.value))
+        if len(calls) != 1:
+            return out
+        for role, arg in (("c_min", calls[0].args[1]), ("c_max", calls[0].args[2])):
+            if not isinstance(arg, ast.Name):
+                continue
+            for n in ast.walk(fn.node):
+                if isinstance(n, ast.Assign) and isinstance(n.targets[0], ast.Name) and n.targets[0].id == arg.id:
+                    out.setdefault(role, set()).add(ast.unparse(n.value))
         return out
 
     ba, bb = brackets(a), brackets(b)
@@ -517,11 +556,10 @@ def bracket_siblings(repo: Repo) -> RuleRun:
             a.node,
             key=name,
         )
-    # both refuse brackets without a sign change, and return brentq over exactly that bracket
+    # both refuse brackets without a sign change before searching
     for fn in (a, b):
-        src = ast.unparse(fn.node)
-        ok = "fexp(c_min) * fexp(c_max) >= 0" in src and "brentq(fexp, c_min, c_max)" in src
-        r.check(ok, fn, "sign change required, root searched in [c_min, c_max]", f"{fn.name} no longer checks the bracket for a sign change before brentq(fexp, c_min, c_max)", fn.node, key="sign-test")
+        guards = [n for n in ast.walk(fn.node) if isinstance(n, ast.If) and isinstance(n.test, ast.Compare) and isinstance(n.test.left, ast.BinOp) and isinstance(n.test.left.op, ast.Mult) and isinstance(n.test.ops[0], (ast.GtE, ast.Gt)) and any(isinstance(x, ast.Raise) for x in n.body)]
+        r.check(len(guards) == 1, fn, "sign change required before the root search", f"{fn.name} no longer rejects a bracket without a sign change (f(lo) * f(hi) >= 0) before brentq", fn.node, key="sign-test")
     return r
 
 
